@@ -39,7 +39,7 @@ PROPS = {
     "C04": {"lean": ["C04"], "expected": ["Globals"], "also": ["C15", "C07"],
             "streams": [{"name": "pipe", "gen": "pipe", "args": {"focus": "dialogs"}}, {"name": "pins", "gen": "pins"}, {"name": "udpwire", "gen": "frame", "args": {"focus": "udpwire"}}],
             "rule": PIPE_RULE},
-    "C06": {"lean": ["C06"], "expected": ["K06", "Globals"], "streams": [{"name": "pipe", "gen": "pipe", "args": {"focus": "requests"}}],
+    "C06": {"lean": ["C06"], "expected": ["K06", "Globals"], "streams": [{"name": "pipe", "gen": "pipe", "args": {"focus": "requests"}}, {"name": "pipe2", "gen": "pipe", "args": {"focus": "dialogs"}}],
             "rule": PIPE_RULE},
     "C07": {"lean": ["C07"], "expected": ["Wiring", "Ctors", "K07", "Globals"], "streams": [{"name": "pipe", "gen": "pipe", "args": {"focus": "requests"}}, {"name": "pipe2", "gen": "pipe", "args": {"focus": "responses"}}, {"name": "wire", "gen": "wire", "args": {"focus": "c07"}}, {"name": "udpwire", "gen": "frame", "args": {"focus": "udpwire"}}], "also": ["C12", "C02"],
             "rule": PIPE_RULE},
